@@ -123,6 +123,7 @@ pub fn run(name: &str, a: &[u64]) -> Vec<u64> {
         }
         // ---- C17: plan cache under a controlled schedule
         "cache_trace" => crate::cache::trace(a),
+        "cache_trace_after_refusal" => crate::cache::trace_after_refusal(a),
         // ---- end-to-end codec cases
         "enc_packets" => crate::codec::enc_packets(a),
         "enc_packets_per_block" => crate::codec::enc_packets_per_block(a),
